@@ -117,7 +117,7 @@ def judge(s, mlines, ilines, verdict, oracle=None):
     if verdict:
         return "violation", "sanitizer/crash: " + verdict.split("|")[0]
     if "leak" in ilines:
-        return "violation", "memory leak reported by LeakSanitizer after the scenario"
+        return "violation", "after the scenario, all handles released: memory still allocated (LeakSanitizer) or a file descriptor still open"
     if oracle:
         o = oracle(s, ilines)
         if o:
